@@ -215,6 +215,8 @@ class VCondition:
         me = k._me()
         if me is None:
             raise VTimeError('a thread unknown to vtime waits on a virtual Condition')
+        if timeout is not None and not (timeout <= _th.TIMEOUT_MAX):
+            raise OverflowError('timeout value is too large')     # as the real Condition.wait does
         me.cond, me.timeout = self, timeout
         me.deadline = None if timeout is None else k.now + max(timeout, 0)
         me.wake_at = None
@@ -490,18 +492,21 @@ class Kernel:
             self.now = t
 
     def drain(self, limit, late=0, pick=None):
+        """run_until(limit) but stop as soon as nothing is runnable or sleeping; True if idle."""
         while True:
             self.settle(pick)
-            d = self.next_deadline()
-            if d is None:
+            best = None
+            for r in self.sleepers():
+                if r.wake_at is None:
+                    l = late(r) if callable(late) else late
+                    r.wake_at = r.deadline + l
+                if best is None or r.wake_at < best:
+                    best = r.wake_at
+            if best is None:
                 return True
-            if d > limit:
+            if best > limit:
                 return False
-            self.run_until(min(limit, max(d, self.now)), late, pick)
-            if self.now >= limit and self.next_deadline() is not None and not self.runnable():
-                nd = self.next_deadline()
-                if nd > limit:
-                    return False
+            self.run_until(max(best, self.now), late, pick)
 
     # ---- threads -----------------------------------------------------------------------
     def spawn(self, fn, name='extra'):
